@@ -196,7 +196,7 @@ func checkC07(c *Ctx) {
 	checkMutableGlobals(c, f)
 	checkRelevantReviewedForms(c, f, "C07.z", "a primitive of the state that survives between definitions (scope tables, info dictionaries, counters, type-definition context)",
 		primSet("scDefVar", "scRegisterVarFac", "scRegisterTypeFac", "scRegisterRecFac", "scRegisterType", "scRegFunFac", "psPushScope", "psPopScope", "updateRecInfo", "updateUniInfo", "lookupRecInfo", "lookupUniInfo",
-			"uniqueTmpVarName", "resetUniqueTmpCounter", "psResetTmpCtx", "psEnterTypeDef", "psLeaveTypeDef", "psSetNewSrc", "g_recInfoDic", "g_uniInfoDic", "encodedKey", "rtToKey", "uniToKey"), 40)
+			"uniqueTmpVarName", "resetUniqueTmpCounter", "psResetTmpCtx", "psEnterTypeDef", "psLeaveTypeDef", "psSetNewSrc", "g_recInfoDic", "g_uniInfoDic", "encodedKey", "rtToKey", "uniToKey"), 30)
 	// lastTkz readers: diagnostics only
 	var readers []string
 	for _, fn := range f.Prog.Funcs {
